@@ -180,7 +180,7 @@ func (c c16) skipCase(cs c16Case) core.Result {
 		var mism []string
 		switch cs.Cmp {
 		case "int":
-			mism = runSkip[int](cs, hv, skiplist.OrderedComparator[int]{}, func(u int) int { return u*3 - 4 }, &r)
+			mism = runSkip[int](cs, hv, skiplist.OrderedComparator[int]{}, func(u int) int { return u*3 - 3 } // includes 0, the zero value of the key type, &r)
 		case "intdiff":
 			// a consistent comparator that returns the difference (any magnitude), as the Compare contract allows
 			mism = runSkip[int](cs, hv, diffComparator{}, func(u int) int { return u*30 - 40 }, &r)
@@ -386,7 +386,7 @@ func subsetKeys(mask, u int) []int {
 	var ks []int
 	for b := 0; b < u; b++ {
 		if mask&(1<<b) != 0 {
-			ks = append(ks, (b+1)*10)
+			ks = append(ks, (b-1)*10) // -10, 0, 10, ...: the zero value of the key type is one of the keys
 		}
 	}
 	return ks
@@ -459,7 +459,7 @@ func checkHeap(its []pq.IteratorWithContext[int, [2]int, int], masks []int, u, t
 	if err != nil {
 		return "init error " + err.Error()
 	}
-	prev := -1
+	prev := -1 << 30
 	nextPos := make([]int, len(masks))
 	count := 0
 	for i := 0; i < total+2; i++ {
@@ -545,7 +545,7 @@ func checkHeapFault(its []pq.IteratorWithContext[int, [2]int, int], masks []int,
 		}
 		return "init error is not the injected one: " + err.Error()
 	}
-	prev := -1
+	prev := -1 << 30
 	nextPos := make([]int, len(masks))
 	for i := 0; i < total+2; i++ {
 		k, v, ctx, err := q.Next()
